@@ -10,6 +10,7 @@ import (
 	"path/filepath"
 
 	"github.com/thought-machine/please/src/cli/logging"
+	"github.com/thought-machine/please/src/verifhook"
 )
 
 var log = logging.Log
@@ -102,9 +103,11 @@ func WriteFile(fromFile io.Reader, to string, mode os.FileMode) error {
 	if err != nil {
 		return err
 	}
+	verifhook.Point("fs.WriteFile.created")
 	if _, err := io.Copy(tempFile, fromFile); err != nil {
 		return err
 	}
+	verifhook.Point("fs.WriteFile.copied")
 	if err := tempFile.Close(); err != nil {
 		return err
 	}
@@ -115,6 +118,7 @@ func WriteFile(fromFile io.Reader, to string, mode os.FileMode) error {
 	if err := os.Chmod(tempFile.Name(), mode); err != nil {
 		return err
 	}
+	verifhook.Point("fs.WriteFile.chmodded")
 	// And move it to its final destination.
 	return renameFile(tempFile.Name(), to)
 }
